@@ -2,7 +2,7 @@ package main
 
 // Restore-then-continue on the real code, through the real checkpoint.Manager and real files.
 //
-//	wcont <N> <k> <height>:<tx hex> …   →  dflt <h|none> coins <n> owned <m>
+//	wcont <N> <k> <height>:<tx hex> …   →  dflt <h|none> rcoins <r> coins <n> owned <m>
 //
 // Blocks 1…N, the listed heights carrying the listed transactions (TransferAsset; an output is a
 // wallet coin when it is a vote output or pays to a deposit address).
@@ -20,11 +20,14 @@ package main
 import (
 	"bytes"
 	"fmt"
+	"io"
 	"os"
 	"reflect"
 	"sort"
 	"strconv"
 	"strings"
+	"sync"
+	"time"
 
 	"elaverif/harness/hx"
 	"elaverif/harness/wire"
@@ -65,24 +68,113 @@ func parseWCont(t []string) wcontOp {
 	return op
 }
 
-func wcontManager(dir string) (*checkpoint.Manager, *wallet.CoinsCheckPoint) {
+// gated is the checkpoint that gets registered: the wallet checkpoint, with one addition.  The manager
+// may hand the asynchronous file writer only a Snapshot() (a copy); if the writer is ever given the LIVE
+// registered object, Serialize does what a busy node does to it: it lets the next block in before the
+// bytes are produced (deterministically: it waits for the feeder to finish one more block, and the feeder
+// then waits for the write — no data race, same effect as a slow disk).  On a correct manager the live
+// object is never serialized by the writer and the gate is never used.
+type gated struct {
+	*wallet.CoinsCheckPoint
+	live bool
+	g    *gate
+}
+
+type gate struct {
+	mu      sync.Mutex
+	snaps   int // snapshots the manager has taken
+	calls   int // Serialize calls the file writer has made (one per save: of the snapshot, or of the live object)
+	waiting bool
+	closing bool
+	next    chan struct{}
+	done    chan struct{}
+}
+
+func (c *gated) Snapshot() checkpoint.ICheckPoint {
+	s, ok := c.CoinsCheckPoint.Snapshot().(*wallet.CoinsCheckPoint)
+	if !ok {
+		return nil
+	}
+	c.g.mu.Lock()
+	c.g.snaps++
+	c.g.mu.Unlock()
+	return &gated{CoinsCheckPoint: s, g: c.g}
+}
+
+// sync waits until every save requested so far has reached the writer's Serialize (so that the feeder
+// cannot run ahead of a writer that has not been scheduled yet); gives up after 10 s.
+func (g *gate) sync() {
+	for i := 0; i < 200000; i++ {
+		g.mu.Lock()
+		ok := g.calls >= g.snaps
+		g.mu.Unlock()
+		if ok {
+			return
+		}
+		time.Sleep(50 * time.Microsecond)
+	}
+}
+
+func (c *gated) Serialize(w io.Writer) error {
+	c.g.mu.Lock()
+	c.g.calls++
+	if !c.live {
+		c.g.mu.Unlock()
+		return c.CoinsCheckPoint.Serialize(w)
+	}
+	if c.g.closing {
+		c.g.mu.Unlock()
+		return c.CoinsCheckPoint.Serialize(w)
+	}
+	c.g.waiting = true
+	c.g.mu.Unlock()
+	<-c.g.next
+	err := c.CoinsCheckPoint.Serialize(w)
+	c.g.done <- struct{}{}
+	return err
+}
+
+// release lets a waiting writer go on (after a block has been fed / before the manager is closed).
+func (g *gate) release(closing bool) {
+	g.mu.Lock()
+	w := g.waiting
+	g.waiting = false
+	if closing {
+		g.closing = true
+	}
+	g.mu.Unlock()
+	if w {
+		g.next <- struct{}{}
+		<-g.done
+	}
+}
+
+func wcontManager(dir string) (*checkpoint.Manager, *gated) {
 	cfg := &config.Configuration{CheckPointConfiguration: config.CheckPointConfiguration{DataPath: dir, NeedSave: true}}
 	m := checkpoint.NewManager(cfg)
-	c := wallet.NewCoinCheckPoint()
+	c := &gated{CoinsCheckPoint: wallet.NewCoinCheckPoint(), live: true, g: &gate{next: make(chan struct{}), done: make(chan struct{})}}
 	m.Register(c)
 	return m, c
 }
 
-func wcontFeed(m *checkpoint.Manager, op wcontOp, to int) {
+// wcontFeed feeds blocks 1…to; at[h] receives the dump of the checkpoint after block h for the save heights.
+func wcontFeed(m *checkpoint.Manager, c *gated, op wcontOp, to int, at map[uint32]string) {
 	for h := 1; h <= to; h++ {
 		blk := &types.DposBlock{Block: &types.Block{Header: ctypes.Header{Height: uint32(h)}, Transactions: op.txs[h]}}
 		m.OnBlockSaved(blk, nil, false, 0, false)
+		if at != nil && h%720 == 0 {
+			at[uint32(h)] = canon(c.CoinsCheckPoint)
+		}
+		c.g.release(false) // a writer found waiting after the previous block goes on now, one block later
+		c.g.sync()
 	}
+	c.g.release(true)
+	m.Close() // the file goroutine handles Exit after everything queued before it
 }
 
 // runWCont returns the straight and the interrupted-and-restored checkpoint and the height the
 // restored one started from (0: nothing to restore from).
-func runWCont(op wcontOp) (straight, restored *wallet.CoinsCheckPoint, from uint32) {
+func runWCont(op wcontOp) (straight, restored *wallet.CoinsCheckPoint, from uint32, rcoins int, bad string) {
 	dirA, err := os.MkdirTemp("", "c23-wcont-a-")
 	if err != nil {
 		panic("harness: " + err.Error())
@@ -94,20 +186,29 @@ func runWCont(op wcontOp) (straight, restored *wallet.CoinsCheckPoint, from uint
 	}
 	defer os.RemoveAll(dirB)
 
+	at := map[uint32]string{}
 	mA, a := wcontManager(dirA)
-	wcontFeed(mA, op, op.n)
-	mA.Close() // the file goroutine handles Exit after everything queued before it
+	wcontFeed(mA, a, op, op.n, at)
 
-	mB, _ := wcontManager(dirB)
-	wcontFeed(mB, op, op.k)
-	mB.Close()
+	mB, b := wcontManager(dirB)
+	wcontFeed(mB, b, op, op.k, nil)
 
 	mC, c := wcontManager(dirB)
 	mC.Restore()
 	from = c.GetHeight()
-	wcontFeed(mC, op, op.n)
-	mC.Close()
-	return a, c, from
+	rcoins = fieldLen(c.CoinsCheckPoint, "coins")
+	if from > 0 {
+		// the file a node restarts from is labelled `from`: it must hold the state after block `from`
+		if want, ok := at[from]; ok {
+			if got := canon(c.CoinsCheckPoint); got != want {
+				bad = fmt.Sprintf("the default checkpoint file is labelled height %d but does not hold the state after block %d: %s", from, from, firstDiff(want, got))
+			}
+		} else {
+			bad = fmt.Sprintf("restored from height %d, which is not a save height the straight run passed", from)
+		}
+	}
+	wcontFeed(mC, c, op, op.n, nil)
+	return a.CoinsCheckPoint, c.CoinsCheckPoint, from, rcoins, bad
 }
 
 func fieldLen(c *wallet.CoinsCheckPoint, name string) int {
@@ -115,16 +216,19 @@ func fieldLen(c *wallet.CoinsCheckPoint, name string) int {
 }
 
 func execWCont(t []string) string {
-	_, c, from := runWCont(parseWCont(t))
+	_, c, from, rcoins, _ := runWCont(parseWCont(t))
 	d := "none"
 	if from > 0 {
 		d = strconv.Itoa(int(from))
 	}
-	return fmt.Sprintf("dflt %s coins %d owned %d", d, fieldLen(c, "coins"), fieldLen(c, "ownedCoins"))
+	return fmt.Sprintf("dflt %s rcoins %d coins %d owned %d", d, rcoins, fieldLen(c, "coins"), fieldLen(c, "ownedCoins"))
 }
 
 func oracleWCont(t []string) *hx.Violation {
-	a, c, from := runWCont(parseWCont(t))
+	a, c, from, _, bad := runWCont(parseWCont(t))
+	if bad != "" {
+		return &hx.Violation{Kind: "checkpoint-file-not-state-at-height", Detail: bad}
+	}
 	da, dc := canon(a), canon(c)
 	if da != dc {
 		return &hx.Violation{Kind: "restore-diverges", Detail: fmt.Sprintf("restored from height %d and continued to %s: %s", from, t[1], firstDiff(da, dc))}
